@@ -14,7 +14,7 @@ from . import core, driver, refbatch, streams
 
 PROP = "C18"
 LEVEL = "fault_enumeration"
-MEM_GIB = 8.0
+MEM_GIB = 4.0
 FINDING_FLOOR = "C18-subsecond-timestamps-floored"
 ENUM_LIMIT = 1024
 KINDS = ("bytesio", "sim", "buffered")
